@@ -97,4 +97,26 @@ PROPS = {
         "assumes": ["modification times of transaction files do not decrease with the TXID (needed only for the 'remainder is still a chain' part)"],
         "trusted_base": ["Model/PageDB.v hand-written; tie = cases_c09_*.v"],
     },
+    "C06": {
+        "gen": [], "props_file": "Props/C06.v", "coq_targets": ["Props/C06.v"],
+        "level_text": "Proof: the primary's stream decision function (model of streamDB/streamLTX) sends an incremental file only when it starts at the client's TXID+1 with pre-checksum equal to the client's checksum; a client that is ahead, has the same TXID with another checksum, faces a pre-checksum mismatch, a missing file or is empty always gets a snapshot; files that do not extend a node's exact position, or whose body does not verify, are refused with the whole node state unchanged, on the stream and on /tx (Props/C06.v, all inputs). "
+                      "Tie: a 42-cell matrix (on-chain / fork of length m at index k / ahead / behind a retention cut / empty / snapshot-only x primary progress) on a real loopback cluster; the sequence of files each replica was offered (from its OS-layer renames) is compared with the model's action list; forged files are posted to /tx and offered by a fake primary on the stream.",
+        "level_note": "Trusted: Coq kernel, harness cluster (simulated lease service, real HTTP/2 h2c server+client), ltx library. Modelled not verified: http/server.go, store.go text. The equality of a position's image across nodes (NoCollision) is an assumption of the statement 'ends byte-identical', checked on the cluster by raw image comparison.",
+        "technique": "Coq proof of the decision table and rejection lemmas + vm_compute correspondence of offered-file sequences + cluster oracle",
+        "rule": "enumerated matrix: relation of replica to primary log (6 kinds) x common prefix k in {1,3} x own transactions m in {1,2} x primary progress n in {0,1,3} (x page size / WAL in thorough) = 42+ cells; 7 forged /tx bodies; 4 bad stream files; distinct = cell parameters; non-trivial = replica joined and its offered files and final image were compared",
+        "explanation": "Decision theorems hold for all positions and logs; the matrix ties the model to the code.",
+        "assumes": ["NoCollision: a (TXID, checksum) pair determines the image"],
+        "trusted_base": ["Model/Repl.v hand-written; tie = cases_c06_*.v"],
+    },
+    "C01": {
+        "gen": [], "props_file": "Props/C01.v", "coq_targets": ["Props/C01.v"],
+        "level_text": "Proof (safety, under NoCollision): a replica holding the primary's image at its position still does after applying an incrementally streamed file, because such a file is only sent on top of the position it was built from (C06) and every file in a primary's log is an exact delta (C02/C03); the stream loop terminates within (primary TXID - client TXID)+1 iterations. "
+                      "Partial: wall-clock convergence, the real kernel page cache and HTTP/2 flow control are runtime behaviour, exercised only. Tie: loopback clusters (1 primary, 2 replicas, LZ4 on/off) running pager histories with late joins, stops/restarts and zero-length retention sweeps; every replica is read the way an application would (under SQLite read locks, through a simulated page cache dropped only by LiteFS's Invalidator calls) and compared with the primary's image recorded at the position the replica reports; each replica's sequence of restarts and received files is re-executed by the PageDB model, which must reproduce every tx event.",
+        "level_note": "Trusted: Coq kernel, harness cluster and simulated page cache, ltx library. Modelled not verified: store.go/http text; NoCollision assumed (XOR-of-CRC64 is not collision-free against an adversary). Not exercised in this round: primary changes mid-history, several databases, database filters.",
+        "technique": "Coq proof (delta algebra over a ghost world map, loop bound) + vm_compute correspondence of replica timelines + cluster oracle with simulated page cache",
+        "rule": "cluster scenarios x pager histories (both journal modes, sizes around 1-12 and 254-259 pages, page sizes 512/1024/4096); replica checks after every primary step; distinct = (image size, position class) at which a replica image was compared; non-trivial = replica image at a reported position compared with the primary's recorded image",
+        "explanation": "Safety composition proved on the model; liveness as a step bound; runtime residue exercised.",
+        "assumes": ["NoCollision", "an application reads under SQLite's read locks"],
+        "trusted_base": ["Model/PageDB.v op_receive/op_open re-executed on replica timelines (cases_c01_*.v)"],
+    },
 }
